@@ -92,10 +92,23 @@ get_cpuid_ecx (orc_uint32 op, orc_uint32 init_ecx, orc_uint32 *a, orc_uint32 *b,
 }
 #elif defined(__GNUC__) || defined(__clang__) || defined (__SUNPRO_C)
 
+#ifdef ORC_VERIF
+/* verification hook: when set, replaces the cpuid / xgetbv instructions */
+void (*orc_verif_cpuid_hook) (orc_uint32 op, orc_uint32 init_ecx, orc_uint32 *a,
+    orc_uint32 *b, orc_uint32 *c, orc_uint32 *d);
+orc_uint32 (*orc_verif_xgetbv_hook) (void);
+#endif
+
 static void
 get_cpuid_ecx (orc_uint32 op, orc_uint32 init_ecx, orc_uint32 *a, orc_uint32 *b,
     orc_uint32 *c, orc_uint32 *d)
 {
+#ifdef ORC_VERIF
+  if (orc_verif_cpuid_hook) {
+    orc_verif_cpuid_hook (op, init_ecx, a, b, c, d);
+    return;
+  }
+#endif
   *a = op;
   *c = init_ecx;
 #if defined(HAVE_I386)
@@ -332,6 +345,10 @@ static orc_bool check_xcr0_ymm()
 #else
 static orc_bool ORC_TARGET_XSAVE check_xcr0_ymm()
 {
+#ifdef ORC_VERIF
+  if (orc_verif_xgetbv_hook)
+    return (orc_verif_xgetbv_hook () & XSAVE_SUPPORT_AVX) == XSAVE_SUPPORT_AVX;
+#endif
   return (_xgetbv(0) & XSAVE_SUPPORT_AVX) == XSAVE_SUPPORT_AVX;
 }
 #endif
